@@ -13,7 +13,7 @@ pub const DEF: PropDef = PropDef {
     run,
     replay,
     level: "exploration",
-    rule: "negative differential: a consistent session spec (handshake string, suite, keys, PSKs, prologue) plus one disagreement between the peers (and random combinations of several): protocol name with identical structure but different string (modifier order permuted; custom names of equal length differing in one byte at any position incl. beyond HASHLEN), different hash of equal length, different cipher, sibling pattern (deferred variant) with the same message count; prologue differing in one bit / in length / empty vs non-empty; one bit of one PSK; a different valid pre-shared static key on either side, the right key with one bit changed (X25519: bit 255, i.e. the same point in another encoding). Oracle: running the handshake as far as calls succeed never ends with both sides finished and no error; if both could be converted, no transport message of one is accepted by the other. The same spec WITHOUT the disagreement completes (control run in the same case). Non-trivial = control completes and the disagreement was applicable; distinct by (name, suite, disagreement)",
+    rule: "negative differential: a consistent session spec (handshake string, suite, keys, PSKs, prologue) plus one disagreement between the peers (and random combinations of several): protocol name with identical structure but different string (modifier order permuted; custom names of equal length differing in one byte at any position incl. beyond HASHLEN), different hash of equal length, different cipher, sibling pattern (deferred variant) with the same message count; prologue differing in one bit / in length / empty vs non-empty; one bit of one PSK; a different valid pre-shared static key on either side, the right key with one bit changed (X25519: bit 255, i.e. the same point in another encoding), the right P-256 key negated (same ECDH outputs, other bytes). Oracle: running the handshake as far as calls succeed never ends with both sides finished and no error; if both could be converted, no transport message of one is accepted by the other. The same spec WITHOUT the disagreement completes (control run in the same case). Non-trivial = control completes and the disagreement was applicable; distinct by (name, suite, disagreement)",
     technique: "negative differential testing (control session vs. session with one injected context disagreement); enumeration over all handshake strings + proptest combinations",
     assumptions: &["a pre-shared X25519 key with bit 255 set is judged as a different key: the specification hashes the key bytes as given (MixHash(rs) in the pre-message), so peers configured with different byte strings must not get a channel"],
     panic_is_violation: false,
@@ -44,6 +44,9 @@ pub enum Dis {
     /// one bit changed: bit 255 for X25519 (another encoding of the same point - the DH outputs
     /// agree, only the transcript can tell), `bit` for P-256 where applicable
     StaticKeyBit(bool, u16),
+    /// P-256: the pre-shared static key given to one side is the peer's key NEGATED (x, p - y): a
+    /// different, valid public key that yields the same ECDH outputs - only the transcript differs
+    StaticKeyNegated(bool),
 }
 
 #[derive(Clone, Debug, Serialize, Deserialize)]
@@ -179,6 +182,31 @@ fn apply(spec: &SessionSpec, dis: &[Dis]) -> Option<(SessionSpec, EpOverrides, S
                     oi.rs_value = Some(wrong);
                 } else {
                     or.rs_value = Some(wrong);
+                }
+            },
+            Dis::StaticKeyNegated(to_initiator) => {
+                let pat = spec.pattern();
+                if !pat.role_needs_remote_static(*to_initiator) || spec.suite.dh != crate::refcrypto::DhKind::P256 {
+                    return None;
+                }
+                let mut k = spec.s_pub(!*to_initiator);
+                // p = 2^256 - 2^224 + 2^192 + 2^96 - 1 (big endian)
+                let p: [u8; 32] = [0xff, 0xff, 0xff, 0xff, 0x00, 0x00, 0x00, 0x01, 0, 0, 0, 0, 0, 0, 0, 0, 0, 0, 0, 0, 0xff, 0xff, 0xff, 0xff, 0xff, 0xff, 0xff, 0xff, 0xff, 0xff, 0xff, 0xff];
+                let mut borrow = 0i32;
+                for i in (0..32).rev() {
+                    let d = p[i] as i32 - k[33 + i] as i32 - borrow;
+                    if d < 0 {
+                        k[33 + i] = (d + 256) as u8;
+                        borrow = 1;
+                    } else {
+                        k[33 + i] = d as u8;
+                        borrow = 0;
+                    }
+                }
+                if *to_initiator {
+                    oi.rs_value = Some(k);
+                } else {
+                    or.rs_value = Some(k);
                 }
             },
             Dis::StaticKeyBit(to_initiator, bit) => {
@@ -364,6 +392,8 @@ fn kinds_for(spec: &SessionSpec, k: u64) -> Vec<Dis> {
         Dis::StaticKey(false),
         Dis::StaticKeyBit(true, k as u16),
         Dis::StaticKeyBit(false, (k * 3) as u16),
+        Dis::StaticKeyNegated(true),
+        Dis::StaticKeyNegated(false),
     ]
 }
 
